@@ -102,8 +102,35 @@ def gen_message(rng, idx):
     return raw.encode("ascii"), {"words": words}
 
 
+# ---- witness corpus: the inputs on which the pinned tree violated the property (repaired by the
+# fix: patches /verif/fixes/C14-search-*.patch); they run first on every run so a regression is reported again
+def _lit(raw, flags="", when=' " 3-Jan-2024 12:00:00 +0000"'):
+    return f"x APPEND inbox{flags}{when} {{{len(raw)}}}\r\n{raw}"
+
+
+CORPUS_MSGS = [
+    "From: a@example.com\r\nReceived: from mx1.example.com by verif\r\nReceived: from mx2.example.com by verif\r\n"
+    "X-Tag: alpha\r\nx-tag: beta\r\nSubject: duplicate fields\r\nDate: Tue, 02 Jan 2024 23:30:00 -0500\r\n\r\nbody one\r\n",
+    "From: b@example.com\r\nSubject: not a date\r\nDate: yesterday\r\n\r\nbody two\r\n",
+    "From: c@example.com\r\nSubject: no date\r\n\r\nbody three\r\n",
+]
+CORPUS_OPS = [{"s": "A", "cmd": _lit(CORPUS_MSGS[0], " (\\Seen \\Flagged)")},
+              {"s": "A", "cmd": _lit(CORPUS_MSGS[1], " (\\Draft kw1)")},
+              {"s": "A", "cmd": _lit(CORPUS_MSGS[2], " (\\Answered \\Deleted)")},
+              {"s": "A", "cmd": "x SELECT inbox"}, {"s": "A", "cmd": "x FETCH 1 (FLAGS)"},
+              {"s": "B", "cmd": "x EXAMINE inbox"}]
+_D = dt.date(2024, 1, 2).toordinal()
+CORPUS_PROGRAMS = (
+    [[("flag", "undraft")], [("not", ("flag", "undraft"))],                                   # UNDRAFT was unknown
+     [("header", "Received", "mx2")], [("header", "X-Tag", "BETA")], [("not", ("header", "x-tag", "beta"))],
+     [("date", "senton", _D)], [("not", ("date", "sentbefore", _D))], [("date", "sentsince", _D - 1)]]
+    + [[(t, k)] for k in RESERVED for t in ("keyword", "unkeyword")])
+
+
 def gen_setup(rng, n):
     """the command script that builds a mailbox of about n messages; -> list of ops"""
+    if n == "corpus":
+        return [dict(o) for o in CORPUS_OPS], [{"words": ["body", "mx1"]} for _ in CORPUS_MSGS]
     ops = []
     total = n + (1 if n >= 3 and rng.random() < 0.5 else 0)
     metas = []
@@ -699,8 +726,12 @@ def explore(ctx, sizes, nprog):
                         [("set", ["*"])], [("set", [("*", 1)])], [("set", [(max(1, len(msgs) - 1), "*")])],
                         [("uid", ["*"])], [("uid", [(uids[-1] if uids else 1, "*")])], [("uid", [("*", 1)])],
                         [("uid", [len(msgs) + 1])], [("all",)]])
+            # (keys of the sweep are counted below; nested keys of corpus programs only by their head)
+            if n == "corpus":
+                sweep = CORPUS_PROGRAMS + sweep
             for keys in sweep:
                 for k in keys:
+                    k = k[1] if k[0] == "not" else k
                     kk = k[0] if k[0] not in ("flag", "date", "size") else k[1]
                     stats[kk] = stats.get(kk, 0) + 1
                 ask(keys, rng.random() < 0.3)
@@ -825,10 +856,10 @@ def run(ctx):
     if ctx.thorough:
         global LONG_SUBJECTS
         LONG_SUBJECTS = True
-        sizes = [0, 1, 2, 3, 4, 5, 6, 7, 8] * 8 + [ctx.rng.randint(2, 8) for _ in range(48)]
+        sizes = ["corpus"] + [0, 1, 2, 3, 4, 5, 6, 7, 8] * 8 + [ctx.rng.randint(2, 8) for _ in range(48)]
         nprog = 60
     else:
-        sizes = [0, 1, 2, 3, 4, 5, 6, 8]
+        sizes = ["corpus", 0, 1, 2, 3, 4, 5, 6, 8]
         nprog = 30
     if not ok:
         ctx.extra["note"] = "proof closure does not build; the correspondence still runs if Model/SearchM.vo builds"
